@@ -43,6 +43,12 @@ KINDS = {
     "csv": (".csv", None, None, 1, 0),             # uncommentable, text content
     "json": (".json", None, None, 1, 0),           # uncommentable, text content
     "lat": (".rb", "#", None, 0, 0),               # recognised, but the content is not UTF-8 text
+    # recognised and commentable by name, valid UTF-8 — but binary to binaryornot (raw control characters / NUL padding):
+    # the header belongs in FILE.license, where the linter (which asks the same library) looks
+    "pyb": (".py", "#", None, 0, 2),
+    "cb": (".c", None, ("/*", " * ", "*/"), 0, 2),
+    "mdb": (".md", None, ("<!--", "", "-->"), 0, 3),
+    "pngt": (".png", None, None, 1, 0),             # uncommentable (and binary to binaryornot by its name), text content
 }
 UNRECOGNISED = ("foo", "txt", "zzz")
 TEXT_KINDS = [k for k, v in KINDS.items() if not v[4] and k != "lat"]
@@ -53,10 +59,14 @@ FORCED = {"python": ("#", None), "c": (None, ("/*", " * ", "*/")), "cpp": ("//",
           "ml": (None, ("(*", " * ", "*)")), "bat": ("REM", None)}
 LATIN1 = b"s = 'caf\xe9 na\xefve'\nputs s\n"
 BINARY = b"\x89PNG\r\n\x1a\n\x00\x00\x00\rIHDR\x00\x01\x02\x03\xff\xfe\x00\x00"
+#: valid UTF-8 that binaryornot calls binary: string constants holding the raw C0 control characters / NUL-padded records
+BINTEXT = "".join("K%d = \"%s\"\n" % (i, "".join(chr(c) for c in range(1, 32) if c not in (9, 10, 13))) for i in range(24)).encode()
+BINRECORDS = "".join(("field%d" % i).ljust(16, "\0") + "\n" for i in range(40)).encode()
+BINARY_CONTENTS = (BINARY, BINTEXT, BINRECORDS)
 CODE = {"py": "x = 1\nprint(x)\n", "sh": "echo hello\n", "toml": "[a]\nb = 1\n", "tex": "\\section{x}\n", "hs": "main = return ()\n", "bat": "echo off\n",
         "lisp": "(print 1)\n", "cpp": "int main() { return 0; }\n", "rs": "fn main() {}\n", "jl": "x = 1\n", "c": "int x;\n", "css": "a { color: red }\n",
         "html": "<p>x</p>\n", "md": "Title\n=====\n\ntext é 张\n", "ml": "let x = 1\n", "j2": "{{ x }}\n", "mk": "all:\n\ttrue\n", "foo": "some text\n",
-        "txt": "plain words\n", "csv": "a,b\n1,2\n", "json": "{\"a\": 1}\n"}
+        "txt": "plain words\n", "csv": "a,b\n1,2\n", "json": "{\"a\": 1}\n", "pngt": "not really a picture\n"}
 SHEBANG = {"py": "#!/usr/bin/env python3", "sh": "#!/bin/sh", "jl": "#!/usr/bin/env julia", "html": "<?xml version=\"1.0\"?>", "tex": "% !TEX root = main.tex",
            "hs": "cabal-version: 2.2", "cpp": "#!/usr/bin/env cppscript"}
 OWN = (["SPDX-FileCopyrightText: 2019 Own"], ["ISC"], [])
@@ -102,7 +112,7 @@ def body_of(f):
     """(bytes, planted information or None)"""
     k = f["kind"]
     if KINDS[k][4]:
-        return BINARY, None
+        return {1: BINARY, 2: BINTEXT, 3: BINRECORDS}[KINDS[k][4]], None
     if k == "lat":
         return LATIN1, None
     b = f.get("body", "plain")
@@ -354,7 +364,7 @@ def plan(case):
         body = files[p]
         st0 = kind_of_path(p)
         t = p
-        if body == BINARY or (st0 is not None and st0[2]) or o.get("force"):
+        if body in BINARY_CONTENTS or (st0 is not None and st0[2]) or o.get("force"):
             t = p if p.endswith(".license") else p + ".license"
             if is_link(files, t):
                 out.append((n, t, "fail", "a symbolic link is in the way at %s" % t))
@@ -497,8 +507,9 @@ def render_real(template_text, cpr, con, lic):
 
 class AnnotateE2EStream(Stream):
     name = "annotate-e2e"
-    rule = ("generated trees (1-5 files of 24 kinds: single- and multi-line comment styles, a style chosen by file name, unrecognised, "
-            "uncommentable, binary, not UTF-8; bodies with shebang / own header in single- or multi-line form / CRLF / CR / byte order mark / no "
+    rule = ("generated trees (1-5 files of 28 kinds: single- and multi-line comment styles, a style chosen by file name, unrecognised, "
+            "uncommentable, binary, not UTF-8, commentable by name but binary to binaryornot although valid UTF-8 (raw control characters, "
+            "NUL padding), text under a name binaryornot lists as binary; bodies with shebang / own header in single- or multi-line form / CRLF / CR / byte order mark / no "
             "final newline; .license sibling absent / empty / with information / dangling link / live link; symbolic links to files; "
             "bystanders) x generated command lines over the whole option space (several paths, directories with and without --recursive, "
             "the three .license options, --skip-existing, --style, --single-line / --multi-line, --merge-copyrights, --no-replace, 10 "
@@ -769,7 +780,7 @@ class AnnotateE2EStream(Stream):
         if key in self.side:
             binary = self.side[key][3]
         else:
-            binary = [n for n, c in files.items() if c == BINARY]
+            binary = [n for n, c in files.items() if c in BINARY_CONTENTS]
         flags = "".join("1" if o.get(k) else "0" for k in ("exclude", "merge", "single", "multi", "recursive", "no_replace", "force", "fallback",
                                                            "skip", "skip_existing"))
         tmpl = "=" + enc(o.get("tmpl_arg") or o["tmpl"]) if o.get("tmpl") else "-"
